@@ -23,10 +23,11 @@ def run(tier, repo):
     r = res.get("tls_sign_hash::parse_content_and_signature")
     if r and "code" in r:
         st = r["code"]["steps"]
-        ok = len(st) == 1 and st[0][0] == "ite" and st[0][2] == ["p", "arg2"]
+        # canonical form: the content parser (read by both forms) first, then the branch on the flag
+        ok = len(st) == 2 and st[0][0] == "param_parser" and st[1][0] == "ite" and st[1][2] == ["p", "arg2"]
         if ok:
-            a, b = st[0][3], st[0][4]
-            ok = a["steps"][0][0] == "param_parser" and b["steps"][0][0] == "param_parser" and [x[0] for x in a["steps"][1:]] == ["u", "u", "u", "bytes"] and [x[0] for x in b["steps"][1:]] == ["u", "bytes"]
+            a, b = st[1][3], st[1][4]
+            ok = [x[0] for x in a["steps"]] == ["u", "u", "u", "bytes"] and [x[0] for x in b["steps"]] == ["u", "bytes"]
         rp.check(ok, "SIG-FLAG", "branches", site(F.fn("tls_sign_hash::parse_content_and_signature")), "flag/branch pairing of parse_content_and_signature differs", found=seq_str(r["code"])[:400])
     rp.floor("grammar_functions", len(res), 6)
     rp.assume("nom 7.1.3 length_data/pair semantics; nom-derive generated code is analysed as source, its Selector dispatch is the generated match")
